@@ -439,3 +439,121 @@ def cuts_job(job):
             bad.append((c1, c2, why))
         total += (i + 1) * wsum(tr)
     return total, len(pairs), bad
+
+
+# ----------------------------------------------------------------- strip_ansi with capture
+
+def _strip_ref(s):
+    """Independent reference for stripEscapes on a whole chunk: remove ESC [ ... up to and
+    including the first terminator byte (to the end when there is none)."""
+    terms = b'HfABCDRsuJKhlpm'
+    out = bytearray()
+    i, n = 0, len(s)
+    while i < n:
+        if s[i:i + 2] == b'\x1b[':
+            j = i + 1
+            while j < n and s[j] not in terms:
+                j += 1
+            i = j + 1
+        else:
+            out.append(s[i])
+            i += 1
+    return bytes(out)
+
+
+def split_pieces(stream, begin, end, capmax):
+    """-> [('log', bytes) | ('sec', bytes) | ('open', bytes)] in order (reference parse)"""
+    if not capmax:
+        return [('log', stream)]
+    out = []
+    pos = 0
+    while True:
+        i = stream.find(begin, pos)
+        if i < 0:
+            out.append(('log', stream[pos:]))
+            return out
+        out.append(('log', stream[pos:i]))
+        j = stream.find(end, i + len(begin))
+        if j < 0:
+            out.append(('open', stream[i + len(begin):]))
+            return out
+        out.append(('sec', stream[i + len(begin):j]))
+        pos = j + len(end)
+
+
+def strip_job(job):
+    """strip_ansi on.  job = (script, capmax, channel, logmode) -> (trace, judge failure or None).
+    The scanner must work on the RAW bytes: the number of events is the number of sections of the
+    raw stream whatever escape sequences surround the tags.  For single-read scripts every piece
+    between tags is one _log chunk, so log = concatenation of stripEscapes(piece) and event data =
+    stripEscapes(section) (bounded)."""
+    script, capmax, channel, logmode = job
+    try:
+        tr, info = _RIG.run(script, capmax, channel=channel, strip=True, logmode=logmode)
+    except HarnessFailure as e:
+        return None, str(e)
+    reads = [f for f in script if isinstance(f, bytes)]
+    stream = b''.join(reads)
+    pieces = split_pieces(stream, _TOK[0], _TOK[1], capmax)
+    secs = [d for k, d in pieces if k == 'sec']
+    why = None
+    if len(info['comm']) != len(secs):
+        why = 'number of PROCESS_COMMUNICATION events differs from the number of sections of the raw stream'
+    elif len([r for r in reads if r]) <= 1:
+        if has_file(logmode):
+            # the tail may be logged in two chunks (hold-back of a tag prefix), which never contains ESC
+            want = b''.join(_strip_ref(d) for k, d in pieces if k == 'log')
+            if info['log'] != want:
+                why = 'log differs from stripEscapes of the pieces outside capture sections'
+        for data, sec in zip(info['comm'], secs):
+            w = _strip_ref(sec)
+            if capmax > 0 and (data != w[-capmax:] if len(w) > capmax else data != w):
+                why = 'event data differs from stripEscapes of the enclosed bytes'
+    return tr, why
+
+
+# ----------------------------------------------------------------- one event per section, as listeners see it
+
+def pools_job(job):
+    """Real EventListenerPool objects (no listener processes: events stay in event_buffer) subscribed
+    through the real _subscribe()/_subscription_types() to every ordered selection of <= 3 of the
+    event types around PROCESS_COMMUNICATION; one real dispatcher run with two sections.  Each pool
+    must have buffered each event exactly once if one of its types covers it, else not at all.
+    -> list of failure texts"""
+    import itertools
+    from supervisor import events as ev
+    from supervisor.options import EventListenerPoolConfig
+    from supervisor.process import EventListenerPool
+    from supervisor.dispatchers import default_handler
+    channel, capmax = job
+    B, E = _TOK
+    types = [ev.Event, ev.ProcessCommunicationEvent, ev.ProcessCommunicationStdoutEvent,
+             ev.ProcessCommunicationStderrEvent, ev.ProcessLogEvent, ev.ProcessLogStdoutEvent]
+    d = _RIG.make(channel, capmax, events_enabled=True)
+    pools = []
+    for n in (1, 2, 3):
+        for sel in itertools.permutations(types, n):
+            cfg = EventListenerPoolConfig(_RIG.options, 'pool%d' % len(pools), 999, [], 1000, list(sel), default_handler)
+            pools.append((sel, EventListenerPool(cfg)))
+    bad = []
+    try:
+        for chunk in (b'one' + B + b'first' + E + b'two' + B[:5], B[5:] + b'second' + E + b'three\n', b''):
+            _RIG.pending[:] = [chunk]
+            d.handle_read_event()
+        d.record_output(final=True)
+        emitted = list(_RIG.comm) + list(_RIG.plog)
+        if len(_RIG.comm) != (2 if capmax else 0):
+            bad.append('dispatcher emitted %d PROCESS_COMMUNICATION events' % len(_RIG.comm))
+        for sel, pool in pools:
+            for e in emitted:
+                want = 1 if any(isinstance(e, t) for t in sel) else 0
+                got = len([x for x in pool.event_buffer if x is e])
+                if got != want:
+                    bad.append('a pool subscribed to %s received the %s event %r %d times (expected %d)'
+                               % ([t.__name__ for t in sel], type(e).__name__, e.data, got, want))
+                    break
+    finally:
+        for sel, pool in pools:
+            pool._unsubscribe()
+        _RIG.close()
+    return bad
